@@ -2,7 +2,8 @@
 from fractions import Fraction
 from ..poly import Sym, mk_func
 from .. import poly
-from ..interp import (Interp, Hooks, Opaque, Str, Slot, Const, Cmp, NotC, State, TRUE, FALSE, DictV)
+from ..interp import (Interp, Hooks, Opaque, Str, Slot, Const, Cmp, NotC, State, TRUE, FALSE, DictV,
+                      In, OrC, AndC, Truthy)
 from ..model import AnalysisError
 from .. import purity
 
@@ -103,10 +104,41 @@ def returned_term(prog):
     fn = prog.func('text_utils.xml_escape')
     inp = Opaque('param:' + fn.params[0], (), 'str')
     outs = Interp(prog).run(fn, [inp])
-    rets = [o for o in outs if o.kind == 'return']
-    if len(rets) != 1:
+    rets = [o for o in outs if o.kind == 'return' and o.value != inp]
+    if not rets or any(o.value != rets[0].value for o in rets):
         raise AnalysisError('xml_escape is not a single straight-line path')
     return rets[0].value
+
+
+def absent_characters(path, inp):
+    """Characters the path conditions establish as *not occurring* in the input: `c not in
+    text` tests, also as the negation of any(c in text for c in '...') unrolled to a disjunction.
+    Returns None when a condition is of another kind."""
+    out = set()
+
+    def absent(c, truth):
+        if isinstance(c, NotC):
+            return absent(c.c, not truth)
+        if isinstance(c, Truthy):
+            return absent(c.v, truth) if isinstance(c.v, (In, OrC, AndC, NotC)) else False
+        if isinstance(c, In) and c.container == inp and isinstance(c.item, Str) and \
+                c.item.is_lit() and len(c.item.text()) == 1:
+            if truth:
+                return False        # establishes presence, nothing about absence: not a shortcut
+            out.add(c.item.text())
+            return True
+        if isinstance(c, OrC) and not truth:
+            return all(absent(x, False) for x in c.items)
+        if isinstance(c, AndC) and truth:
+            return all(absent(x, True) for x in c.items)
+        return False
+    for c, t in path:
+        if not absent(c, t):
+            return None
+    return out
+
+
+SHORTCUTS = []
 
 
 def extract_chain(ck, prog):
@@ -117,6 +149,19 @@ def extract_chain(ck, prog):
     outs = Interp(prog).run(fn, [inp])
     ck.saw('functions', fn.qualname + ' @ ' + fn.loc())
     rets = [o for o in outs if o.kind == 'return']
+    # shortcut paths: the input handed back unchanged because certain characters do not occur
+    del SHORTCUTS[:]
+    if len(rets) == len(outs) and len(rets) > 1:
+        full = [o for o in rets if o.value != inp]
+        for o in rets:
+            if o.value == inp:
+                a = absent_characters(o.state.path, inp)
+                if a is None:
+                    raise AnalysisError('xml_escape returns its argument unchanged on a path '
+                                        'whose conditions are not character-absence tests')
+                SHORTCUTS.append((a, o))
+        if full and all(o.value == full[0].value for o in full):
+            rets = outs = full[:1]       # the same term on every other path
     if len(rets) != 1 or len(outs) != 1:
         raise AnalysisError('xml_escape is not a single straight-line path (%d outcomes)' % len(outs))
     v = rets[0].value
@@ -209,6 +254,18 @@ def check_escape(ck, prog, chain_override=None, canary=False):
                 'written as a numeric character reference (%s)'
                 % (c, ' (and in content CR becomes LF)' if c == '\r' else '',
                    sorted(WHITESPACE_REFS[c])[0]))
+    # D6: a shortcut (argument returned unchanged) is taken only when no character that the
+    # full path rewrites occurs
+    for a_set, o in ([] if chain_override is not None else SHORTCUTS):
+        missing = sorted(set(k for k, _ in chain) - a_set)
+        if missing:
+            t = 'a%sb' % missing[0]
+            bad('C20-D6-shortcut', 'xml_escape::shortcut',
+                'xml_escape(%r) is returned unchanged: the shortcut tests only for %s, but the '
+                'full path also rewrites %s (result there: %r)'
+                % (t, ', '.join(repr(c) for c in sorted(a_set)) or 'nothing',
+                   ', '.join(repr(c) for c in missing), dict(chain).get(missing[0], '')
+                   and t.replace(missing[0], dict(chain)[missing[0]])))
     # D3: no later step rewrites the output of an earlier one
     for i, (a_i, b_i) in enumerate([] if simultaneous else chain):
         for a_j, b_j in chain[i + 1:]:
@@ -581,6 +638,9 @@ def run(ck, prog, tier):
         bad = [f for f in found if f[0] == 'C20-D5-whitespace' and repr(c) in f[1]]
         ck.ob('C20-D5-whitespace', 'xml_escape::whitespace:%r' % c, not bad,
               bad[0][2] if bad else '', loc, key=bad[0][1] if bad else None)
+    bad = [f for f in found if f[0] == 'C20-D6-shortcut']
+    ck.ob('C20-D6-shortcut', 'xml_escape::shortcut[%d unchanged-return path(s)]' % len(SHORTCUTS),
+          not bad, bad[0][2] if bad else '', loc, key='xml_escape::shortcut')
     n_pairs = 0
     for i, (a_i, _) in enumerate(chain):
         for a_j, _ in chain[i + 1:]:
